@@ -70,6 +70,7 @@ func cmdFunc(args []string) {
 	safety := fs.Bool("safety", true, "emit safety obligations")
 	dump := fs.Bool("dump", false, "keep SMT files and print path")
 	verbose := fs.Bool("v", false, "verbose")
+	quiet := fs.Bool("q", false, "only print obligations that did not discharge")
 	pkgsFlag := fs.String("pkgs", "./...", "package patterns")
 	fs.Parse(args)
 	specs, err := loadSpecs()
@@ -83,6 +84,7 @@ func cmdFunc(args []string) {
 		fmt.Fprintln(os.Stderr, "load error:", err)
 		os.Exit(2)
 	}
+	ld.expandSweeps(specs)
 	fmt.Fprintf(os.Stderr, "loaded in %.1fs, %d functions\n", time.Since(t0).Seconds(), len(ld.funcs))
 	dir, _ := os.MkdirTemp("", "cedarvc-")
 	if !*dump {
@@ -115,7 +117,14 @@ func cmdFunc(args []string) {
 	}
 	for _, pat := range fs.Args() {
 		var keys []string
-		for k := range ld.funcs {
+		for k, fn := range ld.funcs {
+			if strings.HasPrefix(pat, "file:") {
+				// every top-level function declared in the file (closures are translated inside their parents)
+				if fn.Parent() == nil && fn.Synthetic == "" && fn.Pos().IsValid() && strings.HasSuffix(ld.fset.Position(fn.Pos()).Filename, strings.TrimPrefix(pat, "file:")) {
+					keys = append(keys, k)
+				}
+				continue
+			}
 			if k == pat || strings.HasSuffix(k, pat) {
 				keys = append(keys, k)
 			}
@@ -124,6 +133,13 @@ func cmdFunc(args []string) {
 		for _, k := range keys {
 			fn := ld.funcs[k]
 			ct := specs.Contracts[k]
+			if ct == nil {
+				// contract-less function: checked the way a file sweep would check it
+				ct = &Contract{Key: k, Loops: map[int]*LoopSpec{}, Thin: true}
+				if fn.Pkg != nil {
+					ct.Pkg = fn.Pkg.Pkg.Path()
+				}
+			}
 			vc := genFunction(ld, specs, fn, ct, GenOpts{Safety: *safety})
 			fmt.Printf("== %s: %d obligations, %d instrs\n", vc.Label, len(vc.Obls), vc.Instrs)
 			if vc.GenErr != "" {
@@ -143,6 +159,9 @@ func cmdFunc(args []string) {
 			}
 			res := solveFunc(context.Background(), vc, *timeout, dir, sem, false)
 			for _, r := range res {
+				if *quiet && (r.Status == "discharged" || r.Status == "cover-ok") {
+					continue
+				}
 				mark := "ok  "
 				if r.Status == "failed" || r.Status == "vacuous" {
 					mark = "FAIL"
